@@ -36,7 +36,7 @@ ASSUMPTIONS = [
     "'cannot be decoded' is established operationally: strict decompile of the same damaged image raises",
     "the audit hook sees every compile/exec/import/open/os.* event of the interpreter",
 ]
-EXPECTED_PROBES = ["a.TTLibError", "a.opened", "b.undecodable", "b.resaved_unchanged", "d.fired"]
+EXPECTED_PROBES = ["a.TTLibError", "a.opened", "b.undecodable", "b.resaved_unchanged", "b.through_ttx_unchanged", "d.fired"]
 
 SMALL = 8192
 
